@@ -173,6 +173,41 @@ func c13Composite(c *Ctx) {
 		c.Probe("inverse_interval_normalization", tag, "C13-inverse-normalization", d)
 	}
 
+	// ---- GoldschmidtDivisionNew on [2^log2min, 2 - 2^log2min], endpoints included: the result is the value the
+	// iteration computes, (1 - (1-x)^(2^iters)) / x (Lean: goldschmidt_spec), iters observed through the bootstrapper
+	// (the loop asks MinimumInputLevel() 3 times per step)
+	// (log2min >= -20: 1/x <= 2^20 at scale 2^90 still fits the modulus of the output level; with the package's
+	// own test parameters and log2min = -30 the bottom endpoint 2^-30 overflows the plaintext space of every slot)
+	for _, l2 := range []float64{-1, -4, -12, -20} {
+		lo := math.Exp2(l2)
+		vals := c13Sweep(c, slots, lo, 2-lo)
+		ct := x.encrypt(vals)
+		x.btp.minCalls = 0
+		var res *rlwe.Ciphertext
+		st := Try(func() string {
+			var err error
+			if res, err = invEval.GoldschmidtDivisionNew(ct, l2); err != nil {
+				return "err"
+			}
+			return "ok"
+		})
+		d := ""
+		if st != "ok" {
+			d = "status=" + st
+		} else {
+			iters := x.btp.minCalls/3 + 1
+			got := x.decrypt(res)
+			for i := range got {
+				w := (1 - math.Pow(1-vals[i], math.Exp2(float64(iters)))) / vals[i]
+				if !(math.Abs(got[i]-w) <= math.Exp2(-25)*math.Abs(w)) {
+					d = fmt.Sprintf("x=%g iters=%d: got %g, the iteration gives %g", vals[i], iters, got[i], w)
+					break
+				}
+			}
+		}
+		c.Probe("inverse_goldschmidt", fmt.Sprintf("log2min=%g", l2), "C13-inverse-value", d)
+	}
+
 	// ---- 1/x on [2^log2min, 2^log2max] (positive), its mirror (negative), both (full): endpoints included
 	type dom struct{ l2min, l2max float64 }
 	doms := []dom{{-10, 3}, {-8, 4}, {-6, 8}, {-4, 1}}
